@@ -28,7 +28,7 @@ FLAVOURS = {
     # name: (compiler, flags)
     "plain": ("g++", ["-std=c++17", "-O1", "-g0", "-w", "-D" + GUARD]),
     "asan": ("g++", ["-std=c++17", "-O0", "-g1", "-w", "-D" + GUARD, "-fsanitize=address,undefined",
-                     "-fno-sanitize-recover=all", "-fno-omit-frame-pointer"]),
+                     "-fno-sanitize-recover=all", "-fsanitize-recover=bool,enum", "-fno-omit-frame-pointer"]),
 }
 
 
@@ -186,10 +186,11 @@ def build_oracle(flavour="plain", repo=None):
     binp = os.path.join(bindir, "nifly_oracle-%s-%s" % (flavour, key))
     if not os.path.exists(binp):
         link_flags = [f for f in flags if f.startswith("-fsanitize") or f.startswith("-fno-sanitize")]
-        rc, out, err = sh([comp] + link_flags + hobjs + objs + ["-o", binp + ".tmp", "-lpthread"], timeout=600)
+        tmpb = "%s.tmp%d" % (binp, os.getpid())
+        rc, out, err = sh([comp] + link_flags + hobjs + objs + ["-o", tmpb, "-lpthread"], timeout=600)
         if rc != 0:
             raise BuildError("link failed:\n" + err[-3000:])
-        os.replace(binp + ".tmp", binp)
+        os.replace(tmpb, binp)
     _prune(bindir, keep={binp}, max_files=6)
     return binp
 
@@ -254,8 +255,10 @@ def write_if_changed(path, content):
     except OSError:
         pass
     os.makedirs(os.path.dirname(path), exist_ok=True)
-    with open(path, "w") as f:
+    tmp = "%s.tmp%d" % (path, os.getpid())
+    with open(tmp, "w") as f:
         f.write(content)
+    os.replace(tmp, path)
     return True
 
 
@@ -267,8 +270,8 @@ def gen_project():
 
 
 def gen_extract():
-    """coq/Extract/Extract.v is assembled from the per-family fragments coq/Extract/*.names
-    (line 1: modules to import, remaining lines: constants to extract)."""
+    """returns (Extract.v text, main.ml text, module names, family list). Extract.v is assembled from the
+    per-family fragments coq/Extract/*.names (line 1: modules to import, remaining lines: constants)."""
     mods, names = [], []
     only = [x for x in os.environ.get("VERIF_FAMILIES", "").split(",") if x]   # development aid: build a subset
     for f in sorted(glob.glob(os.path.join(COQ, "Extract", "*.names"))):
@@ -281,13 +284,12 @@ def gen_extract():
     mods = list(dict.fromkeys(mods))
     names = list(dict.fromkeys(names))
     txt = ("(* GENERATED by tools/vlib.py from coq/Extract/*.names -- do not edit.\n"
-           "   All extraction happens here (compiled from /verif/ocaml so model.ml lands there).\n"
-           "   Only ExtrOcamlBasic is used: bool, option, prod, list, unit, sumbool map to OCaml's;\n"
-           "   nat, positive, N, Z stay the extracted inductive types. No Extract Constant directives. *)\n"
+           "   All extraction happens here. Only ExtrOcamlBasic is used: bool, option, prod, list, unit,\n"
+           "   sumbool map to OCaml's; nat, positive, N, Z stay the extracted inductive types.\n"
+           "   No Extract Constant / Extract Inductive directives of our own. *)\n"
            "From Coq Require Extraction.\nFrom Coq Require Import ExtrOcamlBasic.\n"
            "From NiflyVerif Require Import " + " ".join(mods) + ".\n\n"
            "Extraction Language OCaml.\nExtraction \"model.ml\"\n  " + "\n  ".join(names) + ".\n")
-    write_if_changed(os.path.join(COQ, "Extract", "Extract.v"), txt)
     # main.ml dispatches on the family name = suffix of d_<family>.ml
     fams = sorted(os.path.basename(f)[2:-3] for f in glob.glob(os.path.join(OCAML, "d_*.ml")))
     if only:
@@ -297,7 +299,7 @@ def gen_extract():
             "  match Sys.argv.(1) with\n"
             + "".join("  | \"%s\" -> D_%s.main ()\n" % (f, f) for f in fams)
             + "  | f -> prerr_endline (\"unknown family \" ^ f); exit 2\n")
-    write_if_changed(os.path.join(OCAML, "main.ml"), main)
+    return txt, main, mods, fams
 
 
 def gen_ir(tags=("Cur",)):
@@ -376,37 +378,46 @@ def coq_property(pid, extra_targets=(), timeout=1500):
 
 
 def build_model_oracle(timeout=900):
-    """Extract (if a model changed) and build ocaml/model_oracle. Returns path."""
+    """Extract and build model_oracle in a private scratch directory (several checks may build at the
+    same time). Returns the path of the binary, cached on the content of everything that goes in."""
     gen_ir(("Cur",))
-    gen_extract()
+    ext_txt, main_txt, mods, fams = gen_extract()
     coq_makefile()
-    # everything Extract.v requires
-    ext = os.path.join(COQ, "Extract", "Extract.v")
-    src = open(ext).read()
-    mods = re.findall(r"From NiflyVerif Require Import ([^.]*)\.", src)
-    names = " ".join(mods).split()
     vfiles = {os.path.basename(v)[:-2]: os.path.relpath(v, COQ) for v in glob.glob(os.path.join(COQ, "**", "*.v"), recursive=True)}
-    targets = [vfiles[n] + "o" for n in names if n in vfiles]
+    targets = [vfiles[n] + "o" for n in mods if n in vfiles]
     rc, lg = coq_make(targets, timeout=timeout)
     if rc != 0:
         raise BuildError("Coq model files do not compile:\n" + lg[-4000:])
-    key = sha(os.environ.get("VERIF_FAMILIES", ""), *[file_bytes(os.path.join(COQ, vfiles[n])) for n in names if n in vfiles], file_bytes(ext),
-              *[file_bytes(f) for f in sorted(glob.glob(os.path.join(OCAML, "*.ml"))) if not f.endswith("model.ml")])
+    drivers = ["d_%s.ml" % f for f in fams]
+    key = sha(ext_txt, main_txt, *[file_bytes(os.path.join(COQ, vfiles[n])) for n in mods if n in vfiles],
+              file_bytes(os.path.join(OCAML, "conv.ml")), *[file_bytes(os.path.join(OCAML, d)) for d in drivers])
     bindir = os.path.join(WORK, "bin")
     os.makedirs(bindir, exist_ok=True)
     binp = os.path.join(bindir, "model_oracle-" + key)
     if os.path.exists(binp):
         return binp
-    rc, out, err = sh(["coqc", "-Q", COQ, "NiflyVerif", ext], cwd=OCAML, timeout=timeout)
-    if rc != 0:
-        raise BuildError("extraction failed:\n" + (out + err)[-4000:])
-    only = [x for x in os.environ.get("VERIF_FAMILIES", "").split(",") if x]
-    mls = ["model.mli", "model.ml", "conv.ml"] + sorted(os.path.basename(f) for f in glob.glob(os.path.join(OCAML, "d_*.ml"))
-                                                          if not only or os.path.basename(f)[2:-3] in only) + ["main.ml"]
-    rc, out, err = sh(["ocamlfind", "ocamlopt", "-w", "-a"] + mls + ["-o", binp + ".tmp"], cwd=OCAML, timeout=timeout)
-    if rc != 0:
-        raise BuildError("ocaml build failed:\n" + (out + err)[-4000:])
-    os.replace(binp + ".tmp", binp)
+    tmp = os.path.join(WORK, "ocamlbuild", "%s.%d" % (key, os.getpid()))
+    os.makedirs(tmp, exist_ok=True)
+    try:
+        open(os.path.join(tmp, "Extract.v"), "w").write(ext_txt)
+        open(os.path.join(tmp, "main.ml"), "w").write(main_txt)
+        for f in ["conv.ml"] + drivers:
+            shutil.copy(os.path.join(OCAML, f), os.path.join(tmp, f))
+        rc, out, err = sh(["coqc", "-Q", COQ, "NiflyVerif", "Extract.v"], cwd=tmp, timeout=timeout)
+        if rc != 0:
+            raise BuildError("extraction failed:\n" + (out + err)[-4000:])
+        mls = ["model.mli", "model.ml", "conv.ml"] + drivers + ["main.ml"]
+        rc, out, err = sh(["ocamlfind", "ocamlopt", "-w", "-a"] + mls + ["-o", "model_oracle"], cwd=tmp, timeout=timeout)
+        if rc != 0:
+            raise BuildError("ocaml build failed:\n" + (out + err)[-4000:])
+        os.replace(os.path.join(tmp, "model_oracle"), binp)
+        # keep a readable copy of what was extracted
+        try:
+            shutil.copy(os.path.join(tmp, "Extract.v"), os.path.join(COQ, "Extract", "Extract.v"))
+        except OSError:
+            pass
+    finally:
+        shutil.rmtree(tmp, ignore_errors=True)
     for f in glob.glob(os.path.join(bindir, "model_oracle-*")):
         if f != binp:
             try:
@@ -433,7 +444,7 @@ def run_lines(binp, args, cases, timeout=600, env=None, mem_gb=None):
     return rc, out.split("\n")[:-1] if out.endswith("\n") else out.split("\n"), err
 
 
-def run_cases_robust(binp, args, cases, timeout_per_batch=600, batch=2000, env=None, mem_gb=None, single_timeout=None):
+def run_cases_robust(binp, args, cases, timeout_per_batch=600, batch=2000, env=None, mem_gb=None, single_timeout=None, warnings=None):
     """Run cases in batches; when a batch crashes or hangs, bisect to the crashing case.
     Returns list of (case, output or None, crashinfo or None)."""
     results = []
@@ -443,6 +454,9 @@ def run_cases_robust(binp, args, cases, timeout_per_batch=600, batch=2000, env=N
         if rc == 0 and len(lines) == len(chunk):
             for c, l in zip(chunk, lines):
                 results.append((c, l, None))
+            if warnings is not None and "runtime error:" in err:
+                # recoverable UBSan reports (bool/enum loads): the run went on, the text is kept
+                warnings.append((list(chunk), err[-4000:]))
             return
         if len(chunk) == 1:
             results.append((chunk[0], lines[0] if lines else None, {"rc": rc, "stderr": err[-3000:]}))
